@@ -49,7 +49,7 @@ func vConnOfClientPort(p uint16) int {
 	return int(p) - 1000
 }
 func vPktTime(k, c int) time.Time {
-	return vT0.Add(time.Duration(k)*10*time.Second + time.Duration(c)*100*time.Millisecond)
+	return vT0.Add(time.Duration(k)*10*time.Second + time.Duration(c)*50*time.Millisecond)
 }
 
 // one UDP packet per (capture, connection): client -> server, payload "MARK<k>;"
